@@ -114,6 +114,45 @@ theorem tmoc_contains_exactly (w sh cap : Nat) (ts : List Nat) (x : Nat) :
     bits gives the index back (hence the same microsecond / hash values are covered). -/
 theorem widen_same_interval (k x : Nat) : narrow k (widen k x) = x := narrow_widen k x
 
+/-- The inverse is the same affine map read backwards: on every index of the frequency domain
+    (exponent part ≤ 256) `hash2freq` returns `h + bias·2^52`. -/
+theorem hash2freq_eq (h : Nat) (hh : h / two52 ≤ 256) :
+    hash2freq 64 h = some (h + Params.freqBiasDec * two52) := by
+  have hw : widen (64 - 64) h = h := by
+    show h <<< 0 = h
+    exact Nat.shiftLeft_zero
+  unfold hash2freq
+  rw [hw]
+  simp only [hh, ↓reduceIte]
+  refine congrArg some ?_
+  have hm := Nat.div_add_mod h two52
+  rw [Nat.add_mul, Nat.mul_comm two52] at *
+  omega
+
+/-- **Back to hertz**: the hertz range of the depth-`d` cell containing an accepted value ENCLOSES
+    the value — lower bound `≤` value `<` upper bound (as bit patterns, i.e. as doubles), for every
+    shift `sh` (every depth), whenever the cell end is still an index of the domain. -/
+theorem hz_range_encloses (b sh : Nat) (hv : freqValid b = true)
+    (hend : ((freqHash64 b >>> sh) + 1) <<< sh / two52 ≤ 256) :
+    ∃ lo hi, hash2freq 64 ((freqHash64 b >>> sh) <<< sh) = some lo ∧
+      hash2freq 64 (((freqHash64 b >>> sh) + 1) <<< sh) = some hi ∧ lo ≤ b ∧ b < hi := by
+  have e := freqHash64_eq b hv
+  have hbias : Params.freqBiasDec = Params.freqBiasEnc := by decide
+  have hp := Nat.two_pow_pos sh
+  -- the cell of `h` at shift `sh`: start ≤ h < end
+  have hlo : (freqHash64 b >>> sh) <<< sh ≤ freqHash64 b := by
+    rw [Nat.shiftRight_eq_div_pow, Nat.shiftLeft_eq]; exact Nat.div_mul_le_self _ _
+  have hhi : freqHash64 b < ((freqHash64 b >>> sh) + 1) <<< sh := by
+    rw [Nat.shiftRight_eq_div_pow, Nat.shiftLeft_eq]
+    have := Nat.lt_succ_self (freqHash64 b / 2 ^ sh)
+    exact (Nat.div_lt_iff_lt_mul hp).1 this
+  have hstart : (freqHash64 b >>> sh) <<< sh / two52 ≤ 256 := by
+    have : (freqHash64 b >>> sh) <<< sh ≤ ((freqHash64 b >>> sh) + 1) <<< sh := by omega
+    exact Nat.le_trans (Nat.div_le_div_right this) hend
+  refine ⟨_, _, hash2freq_eq _ hstart, hash2freq_eq _ hend, ?_, ?_⟩
+  · rw [hbias]; omega
+  · rw [hbias]; omega
+
 /-! Non-vacuity -/
 example : freqValid (1000 * 2 ^ 52 + 12345) = true := by decide
 example : freqValid (928 * 2 ^ 52) = false ∧ freqValid (1185 * 2 ^ 52) = false := by decide
